@@ -11,6 +11,7 @@ import (
 	"runtime/debug"
 	"sort"
 	"strings"
+	"syscall"
 
 	"dsim/simdisk"
 )
@@ -533,4 +534,14 @@ func RunAtExit() {
 	for _, f := range atExit {
 		f()
 	}
+}
+
+// CPUSeconds returns the CPU time (user+system) consumed by this process so far. Time budgets
+// are measured in CPU time so that a loaded machine cannot turn a fast call into a "slow" one.
+func CPUSeconds() float64 {
+	var ru syscall.Rusage
+	if err := syscall.Getrusage(syscall.RUSAGE_SELF, &ru); err != nil {
+		return 0
+	}
+	return float64(ru.Utime.Sec+ru.Stime.Sec) + float64(ru.Utime.Usec+ru.Stime.Usec)/1e6
 }
